@@ -420,6 +420,11 @@ func (t *termer) load(addr ssa.Value, v ssa.Value, ctx *Ctx) *Term {
 		return mk("global", globalName(a), v, ctx)
 	}
 	if fa, ok := addr.(*ssa.FieldAddr); ok {
+		// a field of a row of a package-level table (a slice / array literal initialised once and
+		// walked by a loop): the alternatives the rows put into that field
+		if r := t.globalTableField(fa, v, ctx); r != nil {
+			return r
+		}
 		if al, ok := fa.X.(*ssa.Alloc); ok {
 			if whole := structInit(al, fa.Field); whole != nil {
 				if r := t.recordField(whole, fa.Field, v.Type(), v, ctx); r != nil {
@@ -1037,4 +1042,121 @@ func zeroName(tp types.Type) string {
 		return "zero:" + types.TypeString(tp, shortQual)
 	}
 	return "nil"
+}
+
+// globalTableField: fa addresses field f of an element (or of the loop variable holding a copy of
+// an element) of a package-level slice / array of structs that the package initialiser builds from
+// a literal and nothing else writes: a phi over what the rows store into f.
+func (t *termer) globalTableField(fa *ssa.FieldAddr, v ssa.Value, ctx *Ctx) *Term {
+	globalOf := func(x ssa.Value) *ssa.Global {
+		ia, ok := x.(*ssa.IndexAddr)
+		if !ok {
+			return nil
+		}
+		if _, isConst := ia.Index.(*ssa.Const); isConst {
+			return nil
+		}
+		switch b := ia.X.(type) {
+		case *ssa.UnOp:
+			if g, ok := b.X.(*ssa.Global); ok && b.Op == token.MUL {
+				return g
+			}
+		case *ssa.Global:
+			return b
+		}
+		return nil
+	}
+	var gl *ssa.Global
+	switch x := fa.X.(type) {
+	case *ssa.IndexAddr:
+		gl = globalOf(x)
+	case *ssa.Alloc:
+		var vals []ssa.Value
+		for _, r := range *x.Referrers() {
+			switch r := r.(type) {
+			case *ssa.Store:
+				if r.Addr == ssa.Value(x) {
+					vals = append(vals, r.Val)
+				}
+			case *ssa.FieldAddr:
+				for _, rr := range *r.Referrers() {
+					if st, ok := rr.(*ssa.Store); ok && st.Addr == ssa.Value(r) {
+						return nil // the copy is modified
+					}
+				}
+			}
+		}
+		if len(vals) == 1 {
+			if ld, ok := vals[0].(*ssa.UnOp); ok && ld.Op == token.MUL {
+				gl = globalOf(ld.X)
+			}
+		}
+	}
+	if gl == nil || gl.Pkg == nil || !strings.HasPrefix(gl.Pkg.Pkg.Path(), rootPath) {
+		return nil
+	}
+	initFn := gl.Pkg.Func("init")
+	if initFn == nil {
+		return nil
+	}
+	// the global is stored to exactly once, in the initialiser, with a slice of a literal array
+	var lit *ssa.Alloc
+	nStores := 0
+	for _, fn := range gl.Pkg.Members {
+		f, ok := fn.(*ssa.Function)
+		if !ok {
+			continue
+		}
+		fns := append([]*ssa.Function{f}, f.AnonFuncs...)
+		for _, ff := range fns {
+			for _, b := range ff.Blocks {
+				for _, in := range b.Instrs {
+					if st, ok := in.(*ssa.Store); ok && st.Addr == ssa.Value(gl) {
+						nStores++
+						if ff != initFn {
+							return nil
+						}
+						if sl, ok := st.Val.(*ssa.Slice); ok {
+							lit, _ = sl.X.(*ssa.Alloc)
+						}
+					}
+				}
+			}
+		}
+	}
+	if lit == nil || nStores != 1 {
+		return nil
+	}
+	label := fieldLabel(fa.X.Type(), fa.Field)
+	rows := litStores(lit)
+	ictx := &Ctx{Fn: initFn}
+	var args []*Term
+	seen := map[string]bool{}
+	nRows := int64(0)
+	if at, ok := lit.Type().(*types.Pointer).Elem().Underlying().(*types.Array); ok {
+		nRows = at.Len()
+	}
+	for i := int64(0); i < nRows; i++ {
+		vs := rows[fmt.Sprintf("[%d].%s", i, label)]
+		if len(vs) > 1 {
+			return nil
+		}
+		var x *Term
+		if len(vs) == 1 {
+			x = t.term(vs[0], ictx)
+		} else {
+			x = mk("const", zeroName(v.Type()), nil, ictx) // the row leaves the field at its zero value
+		}
+		if !seen[x.String()] {
+			seen[x.String()] = true
+			args = append(args, x)
+		}
+	}
+	if len(args) == 0 {
+		return nil
+	}
+	if len(args) == 1 {
+		return args[0]
+	}
+	return mk("phi", "φ", v, ctx, args...)
 }
